@@ -7,6 +7,7 @@ package main
 import (
 	"fmt"
 	"os"
+	"path/filepath"
 	"runtime/debug"
 	"strings"
 	"sync"
@@ -51,6 +52,8 @@ type stressCfg struct {
 	FlushMinMs  int    `json:"flush_min_ms"`
 	FlushMaxMs  int    `json:"flush_max_ms"`
 	WriterPause int    `json:"writer_pause_us"`
+	Engine      bool   `json:"engine,omitempty"` // operations go through the engine API (partition references, plan path)
+	Fin         string `json:"fin,omitempty"`    // engine mode: "close" (Engine.Close) or "dropdb" (DeleteDatabase) while everything is in flight
 }
 
 type stressOut struct {
@@ -77,6 +80,10 @@ type stressOut struct {
 	CloseMs            int64     `json:"close_ms"`
 	CloseErr           string    `json:"close_err,omitempty"`
 	PostCloseQ         int64     `json:"queries_after_close"`
+	DropMstMs          int64     `json:"drop_measurement_ms,omitempty"`
+	M2Writes           int64     `json:"m2_writes,omitempty"`
+	RaftLookups        int64     `json:"raft_lookups,omitempty"`
+	EngFlushes         int64     `json:"engine_flushes,omitempty"`
 	Failures           []failure `json:"failures"`
 	NFailures          int       `json:"n_failures"`
 	NInOrderLost       int       `json:"n_in_order_lost"`
@@ -93,6 +100,7 @@ type stress struct {
 	events []bgEvent
 	cfg    stressCfg
 	sh     *engine.VerifC04Shard
+	env    *engEnv // engine mode only
 	seq    atomic.Int64 // global logical clock
 	logs   []*wlog
 	// per series: clock value at the end of the first query that returned the series (0: never seen)
@@ -147,6 +155,34 @@ func (ix *ridx) sigOf(p point, e *wentry) string {
 }
 
 func (st *stress) tick() int64 { return st.seq.Add(1) }
+
+func (st *stress) doWrite(rows []influx.Row) error {
+	if st.env != nil {
+		return st.env.write(rows)
+	}
+	return writeRows(st.sh, rows)
+}
+
+func (st *stress) doQuery(kmin, kmax int64, asc bool) qresult {
+	if st.env != nil {
+		res, refErr := st.env.queryRange(mst, kmin, kmax, asc, nil)
+		if refErr != nil && res.err == nil {
+			res.err = refErr
+		}
+		return res
+	}
+	return runQuery(st.sh, kmin, kmax, asc)
+}
+
+func (st *stress) doClose() error {
+	if st.env != nil {
+		if st.cfg.Fin == "dropdb" {
+			return st.env.e.DeleteDatabase(engDB, engPT)
+		}
+		return st.env.e.Close()
+	}
+	return st.sh.CloseShard()
+}
 
 func (st *stress) event(kind string, start int64) {
 	ts := st.sh.TableStore()
@@ -240,7 +276,7 @@ func (st *stress) writer(w int, r *gen.Rand, wg *sync.WaitGroup) {
 			rows = append(rows, mkRow(p.S, p.K, code))
 		}
 		lg.n.Store(first + int64(len(rows))) // publish before the write starts
-		err := writeRows(st.sh, rows)
+		err := st.doWrite(rows)
 		atomic.AddInt64(&st.out.Writes, int64(len(rows)))
 		if err == nil {
 			ack := st.tick()
@@ -303,7 +339,7 @@ func (st *stress) reader(c int, r *gen.Rand, wg *sync.WaitGroup) {
 		fl, cp := st.flushing.Load() > 0, st.compacting.Load() > 0
 		wasClosing := st.closing.Load()
 		startSeq := st.tick()
-		res := runQuery(st.sh, kmin, kmax, asc)
+		res := st.doQuery(kmin, kmax, asc)
 		endSeq := st.tick()
 		nowClosing := st.closing.Load()
 		atomic.AddInt64(&st.out.Queries, 1)
@@ -447,7 +483,12 @@ func (st *stress) flusher(r *gen.Rand, wg *sync.WaitGroup) {
 		}
 		st.flushing.Add(1)
 		t0 := st.tick()
-		st.sh.ForceFlush()
+		if st.env != nil && r.Chance(1, 2) {
+			st.env.e.ForceFlush()
+			atomic.AddInt64(&st.out.EngFlushes, 1)
+		} else {
+			st.sh.ForceFlush()
+		}
 		st.event("flush", t0)
 		st.flushing.Add(-1)
 		st.flushGen.Add(1)
@@ -506,13 +547,81 @@ func (st *stress) compactor(r *gen.Rand, wg *sync.WaitGroup) {
 	}
 }
 
+// engine mode: a writer of the measurement that gets dropped (its writes may fail or vanish: the oracle only looks at
+// the other measurement), the drop itself, and the partition lookups of WriteToRaft
+func (st *stress) m2writer(r *gen.Rand, wg *sync.WaitGroup) {
+	defer wg.Done()
+	defer func() {
+		if e := recover(); e != nil {
+			st.fail("panic", -1, -1, "writer of the dropped measurement panicked: %v\n%s", e, debug.Stack())
+		}
+	}()
+	k := int64(1)
+	for !st.stop.Load() && !st.closed.Load() {
+		rows := []influx.Row{mkRowM(mst2, 0, k, k), mkRowM(mst2, 1, k, k)}
+		k++
+		_ = st.env.write(rows)
+		atomic.AddInt64(&st.out.M2Writes, 2)
+		time.Sleep(time.Duration(r.Range(50, 800)) * time.Microsecond)
+	}
+}
+
+func (st *stress) dropper(r *gen.Rand, wg *sync.WaitGroup) {
+	defer wg.Done()
+	defer func() {
+		if e := recover(); e != nil {
+			st.fail("panic", -1, -1, "DropMeasurement panicked: %v\n%s", e, debug.Stack())
+		}
+	}()
+	time.Sleep(time.Duration(st.cfg.DurationMs*r.Range(15, 70)/100) * time.Millisecond)
+	if st.stop.Load() || st.closing.Load() {
+		return
+	}
+	t0 := time.Now()
+	h := startOp(func() error { return st.env.e.DropMeasurement(engDB, engRP, mst2, []uint64{engSID}) })
+	select {
+	case <-h.done:
+		if h.pan != "" {
+			st.fail("panic", -1, -1, "%s", h.pan)
+		} else if h.err != nil && !st.closing.Load() {
+			st.fail("close-error", -1, -1, "DropMeasurement returned %v", h.err)
+		}
+	case <-time.After(2 * watchdog):
+		st.fail("close-deadlock", -1, -1, "DropMeasurement did not return within %v\n%s", 2*watchdog, allStacks())
+	}
+	st.out.DropMstMs = time.Since(t0).Milliseconds()
+}
+
+func (st *stress) raftLookups(r *gen.Rand, wg *sync.WaitGroup) {
+	defer wg.Done()
+	defer func() {
+		if e := recover(); e != nil {
+			st.fail("panic", -1, -1, "checkAndGetDBPTInfo panicked: %v\n%s", e, debug.Stack())
+		}
+	}()
+	for !st.stop.Load() && !st.closed.Load() {
+		_ = st.env.e.VerifC04CheckAndGetDBPTInfo(engDB, engPT)
+		atomic.AddInt64(&st.out.RaftLookups, 1)
+		time.Sleep(time.Duration(r.Range(100, 3000)) * time.Microsecond)
+	}
+}
+
 func runStress(cfg stressCfg) stressOut {
 	st := &stress{cfg: cfg}
 	st.out.Kind = "stress"
 	st.out.Cfg = cfg
 	st.out.Failures = []failure{}
-	sh, err := openShard(fmt.Sprintf("c04-stress-%d", cfg.Round))
-	if err != nil {
+	var sh *engine.VerifC04Shard
+	var err error
+	if cfg.Engine {
+		st.env, err = openEngine(fmt.Sprintf("c04-stress-%d", cfg.Round))
+		if err == nil {
+			sh = st.env.e.VerifC04Partition(engDB, engPT).VerifC04ShardNoLock(engSID)
+		}
+	} else {
+		sh, err = openShard(fmt.Sprintf("c04-stress-%d", cfg.Round))
+	}
+	if err != nil || sh == nil {
 		st.fail("harness", -1, -1, "open shard: %v", err)
 		return st.out
 	}
@@ -531,14 +640,20 @@ func runStress(cfg stressCfg) stressOut {
 			warm = append(warm, mkRow(s, 0, int64(-1-s)))
 		}
 	}
-	if err := writeRows(sh, warm); err != nil {
+	if cfg.Engine {
+		warm = append(warm, mkRowM(mst2, 0, 0, 0))
+	}
+	if err := st.doWrite(warm); err != nil {
 		st.fail("harness", -1, -1, "warm-up write: %v", err)
 		return st.out
+	}
+	if cfg.Engine {
+		warm = warm[:len(warm)-1]
 	}
 	sh.FlushIndex()
 	deadline := time.Now().Add(10 * time.Second)
 	for {
-		res := runQuery(sh, 0, kInf, true)
+		res := st.doQuery(0, kInf, true)
 		if res.err == nil && len(res.rows) == len(warm) {
 			t := st.tick()
 			for p := range res.rows {
@@ -564,6 +679,12 @@ func runStress(cfg stressCfg) stressOut {
 	wgB.Add(2)
 	go st.flusher(r.Fork(), &wgB)
 	go st.compactor(r.Fork(), &wgB)
+	if cfg.Engine {
+		wgB.Add(3)
+		go st.m2writer(r.Fork(), &wgB)
+		go st.dropper(r.Fork(), &wgB)
+		go st.raftLookups(r.Fork(), &wgB)
+	}
 
 	// one quiet window per round: forced flushes stop, then writers stop with rows left in the memtable; after the
 	// write-cold duration (1 s, second granularity) the shard's own Snapshot goroutine flushes; forced flushes resume at
@@ -593,7 +714,7 @@ func runStress(cfg stressCfg) stressOut {
 				done <- fmt.Errorf("PANIC in close: %v\n%s", e, debug.Stack())
 			}
 		}()
-		done <- sh.CloseShard()
+		done <- st.doClose()
 	}()
 	select {
 	case err := <-done:
@@ -605,8 +726,8 @@ func runStress(cfg stressCfg) stressOut {
 				st.fail("close-error", -1, -1, "close returned %v", err)
 			}
 		}
-	case <-time.After(60 * time.Second):
-		st.fail("close-deadlock", -1, -1, "shard close did not return within 60s while writers/readers/flush/compaction were in flight\n%s", allStacks())
+	case <-time.After(2 * watchdog):
+		st.fail("close-deadlock", -1, -1, "close / drop did not return within %v while writers/readers/flush/compaction were in flight\n%s", 2*watchdog, allStacks())
 		st.out.CloseMs = time.Since(t0).Milliseconds()
 		return st.out
 	}
@@ -617,8 +738,24 @@ func runStress(cfg stressCfg) stressOut {
 	go func() { wgW.Wait(); wgR.Wait(); wgB.Wait(); close(fin) }()
 	select {
 	case <-fin:
-	case <-time.After(60 * time.Second):
-		st.fail("post-close-hang", -1, -1, "clients still blocked 60s after close returned\n%s", allStacks())
+	case <-time.After(2 * watchdog):
+		st.fail("post-close-hang", -1, -1, "clients still blocked %v after close returned\n%s", 2*watchdog, allStacks())
+		return st.out
+	}
+	if cfg.Engine {
+		if cfg.Fin == "dropdb" && st.out.CloseErr == "" {
+			if _, err := os.Stat(filepath.Join(st.env.dir, "data", engDB, fmt.Sprint(engPT))); err == nil {
+				st.fail("close-error", -1, -1, "DeleteDatabase returned nil but the partition directory is still there")
+			}
+		}
+		if cfg.Fin == "dropdb" {
+			h := startOp(st.env.e.Close)
+			select {
+			case <-h.done:
+			case <-time.After(2 * watchdog):
+				st.fail("close-deadlock", -1, -1, "Engine.Close after DeleteDatabase did not return\n%s", allStacks())
+			}
+		}
 		return st.out
 	}
 	_ = sh.CloseIndex()
